@@ -155,9 +155,11 @@ def r4_random_rule(ctx):
     ctx.check(good, f, samples[0] if samples else f.node, "surplus = random.sample(transferable unit ballots, floor(tally) - threshold)", d,
               f"selection is `{d}`; documented: random.sample over the winner's unit ballots that still have a ranking, size int(fpv) - threshold")
     # selected ballots are added to the ballots that were not led by the winner
-    adds = [n for n in astx.walk_own(f.node) if isinstance(n, ast.AugAssign) and isinstance(n.op, ast.Add)]
+    # (L += X and L.extend(X) both add X at the end of L)
+    adds = [n.value for n in astx.walk_own(f.node) if isinstance(n, ast.AugAssign) and isinstance(n.op, ast.Add)]
+    adds += [n.args[0] for n in astx.walk_own(f.node) if isinstance(n, ast.Call) and isinstance(n.func, ast.Attribute) and n.func.attr == "extend" and len(n.args) == 1]
     st = astx.stmt_of(samples[0], pm) if samples else None
-    good = bool(st) and isinstance(st, ast.Assign) and any(astx.u(a.value) == astx.u(st.targets[0]) for a in adds)
+    good = bool(st) and isinstance(st, ast.Assign) and any(astx.u(a) == astx.u(st.targets[0]) for a in adds)
     ctx.check(good, f, st or f.node, "the sampled surplus joins the untouched ballots", "", "sampled ballots are not appended to the result")
     # integrality guard for every ballot
     rs = [r for r in astx.raises_in(f.node) if "integer" in astx.u(r)]
